@@ -33,7 +33,7 @@ MANIFEST = {
 }
 ASSUMPTIONS = ["bounded universe in the history enumeration: 5 packages, 3 blockers, 2 choice points, histories of <= 4 operations",
                "states are compared as multisets (a reverted remove re-appends at the end of a slot list)",
-               "PigeonHoledSlots, RefCountingSet and dict behave as the ghost state of C17.operations says (their code is not under contract here)",
+               "PigeonHoledSlots, RefCountingSet and dict behave as the ghost state of C17.operations says (their code is not under contract here; for PigeonHoledSlots the assumed table is compared with the real class on every sequence of <= 4 calls, bounded)",
                "the induction over the plan (each revert meets the state its apply left, because newer operations are reverted first) is argued, not machine-checked"]
 
 
@@ -201,6 +201,67 @@ def enum_histories(seed):
     return {"name": "C17.plan_state.backtrack.bounded_enumeration",
             "bound": f"histories of <= {maxlen} operations (length {maxlen} sampled 1/7) over {len(ops)} operations on 5 packages, 3 blockers, 2 choice points; every rollback position",
             "cases": cases, "failures": fails}
+
+
+def enum_slot_table(seed):
+    """the slot table the operations undo themselves on: the real PigeonHoledSlots against the table that C17.operations assumes of it (fill
+    appends iff nothing conflicts or the add is forced and reports the conflicts; remove drops every occurrence of THAT OBJECT -- an equal
+    package from another repository stays -- and raises KeyError when it is absent; limiters likewise) -- every sequence of <= 4 calls"""
+    from pkgcore.resolver.pigeonholes import PigeonHoledSlots
+    pkgs, blockers = _universe()
+    calls = [("fill", p, f) for p in pkgs for f in (False, True)] + [("remove", p, None) for p in pkgs] + [("limit", b, None) for b in blockers] + [("unlimit", b, None) for b in blockers]
+    ids = lambda xs: [id(x) for x in xs]
+    cases, fails = 0, []
+    for n in range(1, 5):
+        seqs = itertools.product(range(len(calls)), repeat=n)
+        if n == 4:
+            seqs = itertools.islice(seqs, seed % 11, None, 11)
+        for seq in seqs:
+            cases += 1
+            real, slots, lims = PigeonHoledSlots(), {}, {}
+            for step, i in enumerate(seq):
+                kind, x, force = calls[i]
+                try:
+                    if kind == "fill":
+                        want = [b for b in lims.get(x.key, []) if b.match(x)] + [y for y in slots.get(x.key, []) if y.slot == x.slot]
+                        if not want or force:
+                            slots.setdefault(x.key, []).append(x)
+                        got = real.fill_slotting(x, force=force)
+                    elif kind == "remove":
+                        left = [y for y in slots.get(x.key, []) if y is not x]
+                        want = KeyError if len(left) == len(slots.get(x.key, [])) else None
+                        if want is None:
+                            slots[x.key] = left
+                            if not left:
+                                del slots[x.key]
+                        got = real.remove_slotting(x)
+                    elif kind == "limit":
+                        lims.setdefault(x.key, []).append(x)
+                        want = [y for y in slots.get(x.key, []) if x.match(y)]
+                        got = real.add_limiter(x)
+                    else:
+                        left = [y for y in lims.get(x.key, []) if y is not x]
+                        want = KeyError if len(left) == len(lims.get(x.key, [])) else None
+                        if want is None:
+                            lims[x.key] = left
+                            if not left:
+                                del lims[x.key]
+                        got = real.remove_limiter(x)
+                except KeyError:
+                    got = KeyError
+                except Exception as e:
+                    got = f"{type(e).__name__}: {e}"
+                same_ret = (got is want) if (want is None or want is KeyError or not isinstance(got, list)) else ids(got) == ids(want)
+                same_state = {k: ids(v) for k, v in real.slot_dict.items()} == {k: ids(v) for k, v in slots.items()} and \
+                    {k: ids(v) for k, v in real.limiters.items()} == {k: ids(v) for k, v in lims.items()}
+                if not (same_ret and same_state):
+                    if len(fails) < 5:
+                        hist = [f"{calls[j][0]} {calls[j][1]!r}{' forced' if calls[j][2] else ''}" for j in seq[:step + 1]]
+                        fails.append({"model": {"calls": hist}, "detail": f"PigeonHoledSlots after {hist}: returned {got!r}, slot table {real.slot_dict}, limiters {real.limiters}; "
+                                                                          f"the table the planner's operations rely on: returns {want!r}, slots {slots}, limiters {lims} (objects compared by identity)"})
+                    break
+    return {"name": "C17.PigeonHoledSlots.bounded_enumeration", "bound": f"every sequence of <= 3 calls and 1/11 of the 4-call sequences over {len(calls)} calls (fill / forced fill / remove of 5 packages, two of them equal but "
+            "distinct objects; add / remove of 3 limiters), return value and both tables compared by object identity after every call", "cases": cases, "failures": fails}
 
 
 # =============================================================== per-operation proofs: revert undoes apply ====
@@ -599,6 +660,8 @@ def tasks():
                                "replace_op.apply", "replace_op.revert", "incref_forward_block_op.apply", "incref_forward_block_op.revert",
                                "decref_forward_block_op.apply", "decref_forward_block_op.revert")]
     return [Task("C17.plan_state.backtrack", None, fns, enumerate=enum_histories),
+            Task("C17.PigeonHoledSlots", None, [("src/pkgcore/resolver/pigeonholes.py", "PigeonHoledSlots." + n) for n in ("fill_slotting", "remove_slotting", "add_limiter", "remove_limiter", "check_limiters", "find_atom_matches")],
+                 enumerate=enum_slot_table),
             Task("C17.operations", t_ops, fns[1:]),
             Task("C17.backtrack", t_backtrack, fns[:1], bounded={"operations in the plan": 4, "note": "every position, every failing revert"})]
 
